@@ -24,6 +24,9 @@ unsigned long vt_fd_consumed(void);
 unsigned long vt_fd_produced(void);
 unsigned long vt_fd_closed(int which);
 void vt_fd_reset_closed(void);
+/* any other descriptor number can be WATCHED: close() on it is counted (and, natively, not passed to the kernel) */
+void vt_fd_watch(int fd);
+unsigned long vt_fd_closed_watch(void);
 #ifdef __cplusplus
 }
 #endif
@@ -33,6 +36,7 @@ struct vt_fd_state {
   unsigned char* dst; unsigned long cap, wpos;           /* sink behind VT_FD_DST */
   unsigned long calls, intr_at, fail_at, chunk;          /* plan shared by both */
   unsigned long closed_src, closed_dst;
+  int watch_fd; unsigned long watching, closed_watch;
 };
 #ifdef __cplusplus
 extern "C" {
@@ -81,6 +85,7 @@ static inline long vt_posix_write(int fd, const void* buf, unsigned long count) 
 static inline int vt_posix_close(int fd) {
   if (fd == VT_FD_SRC) vt_fd.closed_src += 1;
   else if (fd == VT_FD_DST) vt_fd.closed_dst += 1;
+  else if (vt_fd.watching && fd == vt_fd.watch_fd) vt_fd.closed_watch += 1;
   return 0;
 }
 #define VT_POSIX_ACCESSORS \
@@ -91,6 +96,8 @@ static inline int vt_posix_close(int fd) {
   unsigned long vt_fd_consumed(void) { return vt_fd.pos; } \
   unsigned long vt_fd_produced(void) { return vt_fd.wpos; } \
   unsigned long vt_fd_closed(int which) { return which == VT_FD_SRC ? vt_fd.closed_src : vt_fd.closed_dst; } \
-  void vt_fd_reset_closed(void) { vt_fd.closed_src = 0; vt_fd.closed_dst = 0; }
+  void vt_fd_reset_closed(void) { vt_fd.closed_src = 0; vt_fd.closed_dst = 0; vt_fd.closed_watch = 0; vt_fd.watching = 0; } \
+  void vt_fd_watch(int fd) { vt_fd.watch_fd = fd; vt_fd.watching = 1; vt_fd.closed_watch = 0; } \
+  unsigned long vt_fd_closed_watch(void) { return vt_fd.closed_watch; }
 #endif /* VT_POSIX_IMPL */
 #endif
